@@ -94,7 +94,7 @@ func main() {
 
 	lap("concurrent")
 	// ---- layer 2: live cluster ----------------------------------------------------------------------
-	liveRuns, episodes, transfers := r.Pick(1, 6), r.Pick(5, 12), r.Pick(6, 10)
+	liveRuns, episodes, transfers := r.Pick(1, 6), r.Pick(4, 12), r.Pick(6, 10)
 	for i := 0; i < liveRuns; i++ {
 		runLive(r, r.Seed*9_000_011+int64(i), episodes, transfers)
 	}
